@@ -62,6 +62,12 @@ def make_family():
         wl = S.MM2(*dims)
         add(f"MM2-{tag}/tight", wl, size=sized(wl, 0.3))
         add(f"MM2-{tag}/mid", wl, size=sized(wl, 0.6))
+    # shapes whose optimum tiles the intermediate along TWO rank variables (two fused loops)
+    wl = S.MM2(4, 2, 4, 4)
+    add("MM2-4244/t15-e100", wl, size=sized(wl, 0.15), e_main=100)
+    wl = S.MM2(6, 2, 6, 2)
+    add("MM2-6262/t25", wl, size=sized(wl, 0.25))
+    add("MM2-6262/t15-e100", wl, size=sized(wl, 0.15), e_main=100)
     # three-level hierarchy
     for tag, dims in (("222", (2, 2, 2)), ("422", (4, 2, 2))):
         wl = S.MM1(*dims)
@@ -74,7 +80,7 @@ FAMILY = make_family()
 
 QUICK_SIDS = [
     "MM1-222/tight", "MM1-422/tight", "MM1-422/tight-thr", "MM1-242/tight", "MM1-622/tight", "MV1-42/tight",
-    "MV2-222/tight", "MV2-222/mid-thr",
+    "MV2-222/tight", "MV2-222/mid-thr", "MM2-4244/t15-e100",
 ]
 # a middle tier used by checks that only need mapper runs + cached references
 MEDIUM_SIDS = [
@@ -108,16 +114,29 @@ def compute_refs(ctx, sids, orders="alpha"):
             return it, RS.eval_chunk(todo[it[0]], it[1])
 
         res = dict(pmap(f, items, init=afx.serial))
+        recs_of = {wi: [r for ci in range(w.n_chunks()) for r in res[(wi, ci)]] for wi, w in enumerate(todo)}
+        # stage 2 (two-Einsum specs): exhaustive pair enumeration with composed points
+        costs = {wi: RS.costs_of(recs_of[wi]) for wi, w in enumerate(todo) if w.two}
+        pitems = [(wi, it) for wi, w in enumerate(todo) if w.two for it in w.pair_items]
+
+        def g(x):
+            wi, it = x
+            return x, RS.pair_chunk(todo[wi], costs[wi], it)
+
+        pres = dict(pmap(g, pitems)) if pitems else {}
         for wi, w in enumerate(todo):
-            recs = [r for ci in range(w.n_chunks()) for r in res[(wi, ci)]]
-            d = RS.assemble(w, recs)
+            if w.two:
+                d = RS.assemble_pairs(w, len(recs_of[wi]), [pres[(wi, it)] for it in w.pair_items], costs[wi])
+                st.transitions += d["n_trees"] + len(w.pair_items)
+            else:
+                d = RS.assemble_single(w, recs_of[wi])
             RS.store(w.sid, orders, d)
             out[w.sid] = RS.load_cached(w.sid, orders)
-            st.transitions += len(recs) + w.n_chunks() + 1
+            st.transitions += len(recs_of[wi]) + w.n_chunks() + 1
     for sid in sids:
         d = out[sid]
         st.configs += d["n_trees"]
-        st.evaluations += d["n_trees"]
+        st.evaluations += d.get("n_model_evaluations", d["n_trees"])
     st.n_states = st.configs  # trees are distinct by construction
     ctx.absorb("reference-mapspace" + ("" if todo else " (cached)"), st, time.time() - t0)
     ctx.extra_cov.setdefault("reference_trees", {}).update(
